@@ -34,6 +34,14 @@ LEVEL_TEXT = ("Theorems (Coq, abstract number type with only the laws of a total
               "every tolerance >= 0, Bracket ends with bx strictly between ax and cx and the minimiser between ax and cx (C11_bracket_encloses_minimiser); every pass of Brent keeps the current point and the minimiser inside [a,b] - the parabolic, golden-section "
               "and minimal-step trial points all lie in [a,b] and differ from x (C11_brent_step_keeps_minimiser); hence whenever Find_Minimum returns, |x_min - xs| <= 2*(tol*|x_min| + 2^-52) (C11_find_minimum_converges_unimodal), "
               "and likewise Find_Maximum on strictly unimodal humps (C11_find_maximum_converges_unimodal). "
+              "The returned point against every evaluation (abstract number type, order laws only; all objectives without NaN values): Minimization::minimize (all three overloads) returns fmin <= f(p) for EVERY point p at which the objective was "
+              "evaluated in the call - rejected reflections, expansions, contractions and all shrink vertices included (C11_minimize_best_of_all_evaluated; induction over the iterations with the invariant 'every recorded point has a current vertex value below its value'), "
+              "and the returned point and every vertex of the reported simplex are points at which the objective was evaluated in this call (C11_minimize_reports_evaluated_points); Brent::Minimize evaluates 1..100 points, x_min is one of them and f_min = f(x_min) is "
+              "the least value among them (C11_brent_best_of_evaluated); Find_Minimum's evaluations are Bracket's followed by Brent's, x_min is one of Brent's and not worse than any of them (C11_find_minimum_best_of_brent_points; for Find_Maximum over the reals: C11_find_maximum_best_of_brent_points), and they begin with xLeft, xRight and the "
+              "golden-section point beyond the lower of the two (C11_find_minimum_evaluations_start). These statements were S4 predicates only before (best-of-all-evaluations, vertex-was-evaluated, returned-evaluated, trace); they remain S4 predicates on the implementation. "
+              "REFUTED, hence not claimed: 'Find_Minimum's result is not worse than every point it evaluated' (C11_find_minimum_best_of_all_evaluated_refuted, witness on the integer instance): Bracket's early return 'fu > fb: cx = u; return' drops the old cx where a value "
+              "below f(bx) had been seen, and Brent searches [ax,u] only. Replayed on the C++ in doubles: f = 3 for x < 0.5, 1 on (0.9,1.1), 0.9 for x > 2.5, 5 elsewhere; Find_Minimum(f, 0, 1, 1e-6) evaluates f(2.618034) = 0.9 and returns x = 0.9715 with f = 1. "
+              "This is not a violation of the property (which speaks of the two initial abscissae: 3 and 1). "
               "NOT theorems: convergence of Nelder-Mead to the minimiser of a quadratic bowl within the tolerance (no such theorem exists for the method); the 1-D distance bound under rounding (the real-number theorem does not speak about objectives that are flat in doubles "
               "around the minimiser: S4 adds the objective's resolution to the bound); termination of the bracketing loop (no cap in the source) and that Brent does not hit ITMAX. "
               "These clauses are decided on the implementation (S4) on the quantifier's classes: quadratic bowls with condition number up to 1e4 in 1..6 dimensions, quartic-flat, "
